@@ -222,9 +222,9 @@ class C01(Check):
             for e in trees(2, LEAVES_RED, memo):
                 yield ("expr", e, ["module", "lambda"], ["min", "full"])
         for i, p in enumerate(stmt_space(tier)):
-            yield ("stmt", p, None, LAYOUTS if th else ["min", "comments"])
+            yield ("stmt", p, None, (LAYOUTS + ["typed"]) if th else ["min", "comments", "typed"])
         for p in literal_programs() + opassign_programs() + elseif_programs():
-            yield ("stmt", p, None, ["min", "full", "comments"])
+            yield ("stmt", p, None, ["min", "full", "comments", "typed"])
 
     def describe(self, spec):
         if spec[0] == "expr":
